@@ -826,6 +826,54 @@ fn main() {
         };
         corr_n_test(&mut out, n, ts);
     }
+    // the size arithmetic where rounding decides: bit neighbours of test_size = 1.0 and of k/n (the
+    // product is then within an ulp of the integer k), n at and around 2^24 and 2^23 and small n.
+    // Own generator, so that the cases above and below are the same as before this block existed.
+    {
+        let mut r2 = Rng::new(a.seed ^ 0x0C16_F32B);
+        let p24 = 1usize << 24;
+        let pick_n = |r: &mut Rng| -> usize {
+            match r.below(7) {
+                0 => p24 - r.below(40),
+                1 => p24 + r.below(40),
+                2 => (1usize << 23) - 20 + r.below(40),
+                3 => r.usize_in(1, 64),
+                4 => r.usize_in(1, 5000),
+                _ => r.usize_in(1, p24),
+            }
+        };
+        // neighbours of 1.0: 1.0 - j ulp accepted, 1.0 + j ulp rejected
+        for _ in 0..(if t { 500 } else { 50 }) {
+            let n = pick_n(&mut r2);
+            let bits = (0x3F80_0000i64 + r2.int(-12, 2)) as u32;
+            corr_n_test(&mut out, n, f32::from_bits(bits));
+        }
+        // neighbours of k/n, k in 1..=n (k = 1: the n_test = 0 / 1 boundary; k = n: 1.0 again)
+        for i in 0..(if t { 1500 } else { 110 }) {
+            let n = pick_n(&mut r2);
+            let k = match i % 4 {
+                0 => 1,
+                1 => n - r2.below(n.min(3)),
+                _ => r2.usize_in(1, n),
+            };
+            let q = if r2.bool() { (k as f64 / n as f64) as f32 } else { k as f32 / n as f32 };
+            let bits = (q.to_bits() as i64 + r2.int(-3, 3)).clamp(1, 0x3F80_0002) as u32;
+            corr_n_test(&mut out, n, f32::from_bits(bits));
+        }
+        // exact ties at unit spacing: test_size = m/2^s (m odd, > 1/2), n = 2^s*j + 2^(s-1) with
+        // n*test_size = m*j + m/2 >= 2^23: the product is exactly half-way between two integers
+        // (ties-to-even decides the size); the same above 2^24 where the spacing is 2 and more
+        for _ in 0..(if t { 300 } else { 30 }) {
+            let s = r2.usize_in(1, 5);
+            let m = r2.usize_in(1usize << (s - 1), (1usize << s) - 1) | 1; // odd, in [2^(s-1), 2^s - 1]
+            let ts = m as f32 / (1usize << s) as f32;
+            let lo = (((1usize << 23) as f64 / ts as f64).ceil() as usize) >> s;
+            let hi = if r2.chance(0.8) { (p24 >> s) - 1 } else { (p24 >> s) * 16 };
+            let j = r2.usize_in(lo.min(hi), hi);
+            let n = (j << s) + (1usize << (s - 1));
+            corr_n_test(&mut out, n, ts);
+        }
+    }
     // cross_validate / cross_val_predict
     for i in 0..(if t { 600 } else { 100 }) {
         let n = rng.usize_in(2, if i % 5 == 0 { 40 } else { 16 });
